@@ -427,7 +427,8 @@ func (m *Map) ValueOf() reflect.Value {
 	return reflect.ValueOf(m.items)
 }
 
-// Keys returns all map keys
+// Keys returns all map keys: in the explicit order if the map has one, otherwise sorted,
+// so that the result does not depend on Go's randomised map iteration
 func (m *Map) Keys() []string {
 	m.convert()
 	if len(m.order) > 0 {
@@ -440,6 +441,7 @@ func (m *Map) Keys() []string {
 		result[i] = key
 		i = i + 1
 	}
+	sort.Strings(result)
 
 	m.order = result
 
